@@ -246,8 +246,35 @@ def make_pipefunc(fn: dict, log, version: str = "", fail=None, **extra):
 def build_pipeline(prog: dict, log, version: str = "", fail=None, **pipeline_kwargs):
     from pipefunc import Pipeline
 
-    pfs = [make_pipefunc(fn, log, version, fail) for fn in prog["funcs"]]
-    return Pipeline([pfs[i] for i in prog["order"]], **pipeline_kwargs)
+    # prog["plain_callables"]: every function that needs no PipeFunc option is handed to Pipeline as the bare callable
+    # (Pipeline.add wraps it itself, output name = __name__); its cache flag is switched on through the handle afterwards
+    plain = bool(prog.get("plain_callables"))
+    pfs, cache_on = [], []
+    for fn in prog["funcs"]:
+        if plain and plain_eligible(fn):
+            body = make_body(fn, log, version, fail)
+            body.__name__ = fn["outs"][0]
+            pfs.append(body)
+            if fn.get("cache"):
+                cache_on.append(fn["outs"][0])
+        else:
+            pfs.append(make_pipefunc(fn, log, version, fail))
+    p = Pipeline([pfs[i] for i in prog["order"]], **pipeline_kwargs)
+    for o in cache_on:
+        p[o].cache = True
+    return p
+
+
+def plain_eligible(fn: dict) -> bool:
+    return (
+        len(fn["outs"]) == 1
+        and list(fn["orig"]) == list(fn["params"])
+        and list(fn["orig_outs"]) == list(fn["outs"])
+        and not fn["pf_defaults"]
+        and not fn["bound"]
+        and not fn.get("resvar")
+        and not fn.get("callable_object")
+    )
 
 
 # ------------------------------------------------------------------------------------------------
